@@ -275,11 +275,11 @@ var ValidProfiles = []Profile{
 		{`req(a: 1)`, `req`, `req(b: 1)`, `req(a: 1, b: null)`, `req(a: null)`, `req(a: $i)`, `req(a: 1, b: $i)`, `pet(kind: CAT) { id }`, `pet(kind: BAD) { id }`, `pet(kind: "DOG") { id }`, `pet(kind: 1) { id }`, `pet(kind: null) { id }`, `pet(kind: $k) { id }`, `pet(kind: $i) { id }`, `req(a: 1, a: 2)`, `id(x: 1)`, `r: req(a: $k)`},
 	}},
 	{Name: "values", Template: `query Q($v: Int, $w: Int!) { §0 u: list(xs: [[$v]]) w: req(a: $w) }`, Holes: [][]string{valuePositions()}},
-	{Name: "variables", Template: `query Q(§0) { §1 §2 } fragment VF on Query { req(a: $a) } fragment VG on Query { ...VF } fragment VH on Query @tag(name: "h", n: $a) { id } fragment VI on Query @tag(name: "i", n: $undefinedHere) { id }`, Holes: [][]string{
+	{Name: "variables", Template: `query Q(§0) { §1 §2 } fragment VF on Query { req(a: $a) } fragment VG on Query { ...VF } fragment VH on Query @tag(name: "h", n: $a) { id } fragment VI on Query @tag(name: "i", n: $undefinedHere) { id } fragment VJ on Query { one(arg: {b: $a}) } fragment VK on Query { one(arg: {a: $undefinedThere}) }`, Holes: [][]string{
 		{`$a: Int!`, `$a: Int`, `$a: Int = 1`, `$a: Int! = 1`, `$a: Int = null`, `$a: Nope`, `$a: Pet`, `$a: [Int!]`, `$a: String`, `$a: Int!, $a: Int!`, `$a: Int!, $k: Kind = DOG`, `$a: Int!, $f: Filter = {req: true}`, `$a: Int! = "s"`, `$a: [Int]! = [1, null]`, `$a: Int!, $z: Int`, `$a: ID!`, `$a: Float!`, `$a: Int! @tag(name: "v")`, `$a: Int! @once`, `$a: Kind! = BAD`, `$a: Filter = {name: 1}`, `$a: [[Int]!]`, `$a: [Int]`, `$a: Boolean!`},
-		{`req(a: $a)`, `r2: req(a: 1, b: $a)`, `search(n: $a) { __typename }`, `search(q: $a) { __typename }`, `list(xs: [[$a]])`, `list(xs: $a)`, `search(f: {req: true, min: $a}) { __typename }`, `...VF`, `...VG`, `id @tag(name: "x", n: $a)`, `id`, `node(id: $b) { id }`, `search(ks: [$a]) { __typename }`, `one(arg: {a: $a})`, `search(i: $a, fl: $a) { __typename }`, `pet(kind: $a) { id }`, `id @skip(if: $a)`, `search(f: {req: $a}) { __typename }`, `list(xs: [$a])`, `nums(xs: [$a])`, `nums(ys: [[$a]])`, `nums(xs: $a)`, `...VH`, `...VH id @tag(name: "y", n: $a)`, `...VI`, `many(fs: [{req: true, kinds: [DOG], min: $a}])`},
+		{`req(a: $a)`, `r2: req(a: 1, b: $a)`, `search(n: $a) { __typename }`, `search(q: $a) { __typename }`, `list(xs: [[$a]])`, `list(xs: $a)`, `search(f: {req: true, min: $a}) { __typename }`, `...VF`, `...VG`, `id @tag(name: "x", n: $a)`, `id`, `node(id: $b) { id }`, `search(ks: [$a]) { __typename }`, `one(arg: {a: $a})`, `search(i: $a, fl: $a) { __typename }`, `pet(kind: $a) { id }`, `id @skip(if: $a)`, `search(f: {req: $a}) { __typename }`, `list(xs: [$a])`, `nums(xs: [$a])`, `nums(ys: [[$a]])`, `nums(xs: $a)`, `...VH`, `...VH id @tag(name: "y", n: $a)`, `...VI`, `...VJ`, `...VK`, `one(arg: {a: $nope})`, `many(fs: [{req: true, kinds: [DOG], min: $a}])`},
 		{``, `r3: req(a: $a)`, `k: pet(kind: $k) { id }`, `ff: search(f: $f) { __typename }`, `...VF`, `o: one(arg: {a: $a})`, `o2: one(arg: {b: $a})`},
-	}, Optional: []string{"VF", "VG", "VH", "VI"}},
+	}, Optional: []string{"VF", "VG", "VH", "VI", "VJ", "VK"}},
 	{Name: "fragments", Template: `query Q { §0 } §1 §2`, Holes: [][]string{
 		{`...F`, `id`, `...G`, `...Nope`, `node(id: 1) { ...F }`, `pet { ...F }`, `search { ...F }`, `named { ... on Person { id } }`, `pet { ... on Person { id } }`, `node(id: 1) { ... on Kind { x } }`, `...A`, `pet { ...F ...F }`, `... on Query { ...F }`, `... { ...F }`, `... on Pet { id }`, `person { ...F }`, `search { ...H }`, `...F ...G`, `named { ...I }`, `pet { ...I }`, `node(id: 1) { ...J }`},
 		{`fragment F on Query { id }`, `fragment F on Pet { id }`, `fragment F on Nope { id }`, `fragment F on Kind { x }`, `fragment F on Query { ...F }`, `fragment F on Query { id } fragment F on Query { id }`, ``, `fragment F on Filter { name }`, `fragment F on Query { pet { ...F } }`, `fragment F on Node { id }`, `fragment F on Result { __typename }`, `fragment F on Query { id ...G }`, `fragment F on Query { id ...Nope }`, `fragment F on name { id }`, `fragment F on Pat { id }`, `fragment F on Query { pet { id ...Nope2 } }`},
